@@ -173,8 +173,78 @@ func (p *Program) registerHeap(name string, s *Sort) {
 	p.heapSorts[name] = s
 }
 
+// heapVarInfo: which heap array a solver constant stands for, and the
+// allocation counter that bounds every reference stored in it.
+type heapVarInfo struct {
+	name  string
+	alloc *Term
+}
+
+func (p *Program) noteHeapVar(v *Term, name string, alloc *Term) {
+	if p.heapVars == nil {
+		p.heapVars = map[*Term]heapVarInfo{}
+	}
+	if _, ok := p.heapVars[v]; !ok {
+		p.heapVars[v] = heapVarInfo{name, alloc}
+	}
+}
+
+func (p *Program) noteHeapType(name string, t types.Type) {
+	if p.heapTypes == nil {
+		p.heapTypes = map[string]types.Type{}
+	}
+	p.heapTypes[name] = t
+}
+
+// heapInv: the type invariant of every value stored in heap array h (all
+// references are allocated, bytes are bytes, slices are well-formed). This is
+// an invariant of the memory model: every stored value satisfied it when it
+// was stored and the allocation counter only grows.
+func (p *Program) heapInv(name string, h *Term, alloc *Term) *Term {
+	amax := Var("alloc$max", SInt)
+	// both: cells allocated when the array was introduced hold values bounded by
+	// that allocation counter; every cell holds a well-typed value w.r.t. the
+	// final counter (cells beyond the counter are never observed before they
+	// are initialised by an allocation or by a callee).
+	two := func(bound []*Term, guardIdx *Term, v *Term, t types.Type) *Term {
+		a := typeInv(t, v, alloc)
+		b := typeInv(t, v, amax)
+		var out []*Term
+		if a != True && a != b {
+			out = append(out, Forall(bound, Implies(Le(guardIdx, alloc), a), []*Term{v}))
+		}
+		if b != True {
+			out = append(out, Forall(bound, b, []*Term{v}))
+		}
+		return And(out...)
+	}
+	t := p.heapTypes[name]
+	switch {
+	case strings.HasPrefix(name, "ML:"):
+		m := BVar("hm", SInt)
+		return Forall([]*Term{m}, Le(IntLit(0), Select(h, m)), []*Term{Select(h, m)})
+	case t == nil:
+		return True
+	case strings.HasPrefix(name, "F:") || strings.HasPrefix(name, "P:") || strings.HasPrefix(name, "FV:"):
+		r := BVar("hr", SInt)
+		return two([]*Term{r}, r, Select(h, r), t)
+	case strings.HasPrefix(name, "M:"):
+		b, i := BVar("hb", SInt), BVar("hi", SInt)
+		return two([]*Term{b, i}, b, Select(Select(h, b), i), t)
+	case strings.HasPrefix(name, "MV:"):
+		_, inner, _ := h.Sort.arrayParts()
+		ks, _, _ := inner.arrayParts()
+		m, k := BVar("hm", SInt), BVar("hk", ks)
+		return two([]*Term{m, k}, m, Select(Select(h, m), k), t)
+	case strings.HasPrefix(name, "G:"):
+		return typeInv(t, h, alloc)
+	}
+	return True
+}
+
 func (p *Program) fieldHeap(st types.Type, f *types.Var) string {
 	n := fieldHeapName(st, f)
+	p.noteHeapType(n, f.Type())
 	s := sortOf(f.Type())
 	if s == nil {
 		unsupp("field %s of type %s has unsupported type %s", f.Name(), st, f.Type())
@@ -190,6 +260,7 @@ func (p *Program) elemHeap(el types.Type) string {
 		unsupp("element type %s unsupported", el)
 	}
 	p.registerHeap(n, ArraySort(SInt, ArraySort(SInt, s)))
+	p.noteHeapType(n, el)
 	return n
 }
 
@@ -202,6 +273,7 @@ func (p *Program) mapHeaps(mt *types.Map) (d, v, l string) {
 	p.registerHeap(d, ArraySort(SInt, ArraySort(ks, SBool)))
 	p.registerHeap(v, ArraySort(SInt, ArraySort(ks, vs)))
 	p.registerHeap(l, ArraySort(SInt, SInt))
+	p.noteHeapType(v, mt.Elem())
 	return
 }
 
@@ -211,6 +283,7 @@ func (s *State) H(p *Program, name string) *Term {
 		return t
 	}
 	t := Var(heapVarName(name)+"@0", heapSort(name, p))
+	p.noteHeapVar(t, name, Var("alloc@0", SInt))
 	s.heap[name] = t
 	return t
 }
@@ -223,7 +296,9 @@ func (s *State) setH(name string, t *Term) { s.heap[name] = t }
 
 // initial heap symbol (state-independent)
 func initHeap(p *Program, name string) *Term {
-	return Var(heapVarName(name)+"@0", heapSort(name, p))
+	t := Var(heapVarName(name)+"@0", heapSort(name, p))
+	p.noteHeapVar(t, name, Var("alloc@0", SInt))
+	return t
 }
 
 func sortedHeapNames(a, b *State) []string {
@@ -265,6 +340,8 @@ func typeInv(t types.Type, v *Term, alloc *Term) *Term {
 			return And(Le(IntLit(-32768), v), Le(v, IntLit(32767)))
 		case types.Int32:
 			return And(Le(IntLit(-2147483648), v), Le(v, IntLit(2147483647)))
+		case types.Int, types.Int64:
+			return And(Le(minInt64, v), Le(v, maxInt64))
 		}
 		return True
 	case *types.Pointer, *types.Map, *types.Chan, *types.Interface:
@@ -275,7 +352,7 @@ func typeInv(t types.Type, v *Term, alloc *Term) *Term {
 	case *types.Slice:
 		return And(
 			Le(IntLit(0), SBase(v)), Le(SBase(v), alloc),
-			Le(IntLit(0), SOff(v)), Le(IntLit(0), SLen(v)), Le(SLen(v), SCap(v)),
+			Le(IntLit(0), SOff(v)), Le(IntLit(0), SLen(v)), Le(SLen(v), SCap(v)), Le(SCap(v), maxInt64), Le(SOff(v), maxInt64),
 			Implies(Eq(SBase(v), IntLit(0)), And(Eq(SCap(v), IntLit(0)), Eq(SOff(v), IntLit(0)))))
 	}
 	return True
